@@ -384,6 +384,18 @@ func runC10(r *evid.Run) {
 			}
 		}
 	}
+	// a pattern repeated after another one (p, q, p): the repetition is not redundant when q has the
+	// opposite polarity
+	for _, t := range trees {
+		for _, p1 := range c10Patterns {
+			for _, q := range c10Patterns {
+				if p1 == q {
+					continue
+				}
+				cases = append(cases, c10Case{Tree: t, Include: []string{p1, q, p1}}, c10Case{Tree: t, Exclude: []string{p1, q, p1}})
+			}
+		}
+	}
 	// on disk (lazy stats): lists of length <=1 on both sides, every tree
 	short := patternLists(1, c10Patterns)
 	for _, t := range trees {
